@@ -5,7 +5,7 @@ import lib, fatimg, fatspec
 from tftpdrv import Sim
 
 SPEC = {
-    'rule': 'disk images with two FAT partitions (distinct marker files per volume, shared names with different content, '
+    'rule': 'disk images with four FAT volumes each, in MBR-primary, MBR-logical (four equal-sized logical volumes behind an extended partition) and GPT (sparse slots, 128/256-byte entries) layouts (distinct marker files per volume, shared names with different content, '
             'nested directories, long names) and a board table (several boards, shared image with different partitions, with and '
             'without ip=, IPv4 and IPv6); thousands of request names (well-formed serial/path in any case and with leading zeros; '
             '"..", ".", repeated and trailing slashes, absolute paths, backslashes, over-long and non-ASCII components, names '
@@ -25,35 +25,88 @@ SPEC = {
 }
 
 
-def make_disk(rng, tmp, tag):
-    """MBR disk with two FAT partitions; returns (path, [spec trees per partition], [volume bytes])"""
-    vols, trees = [], []
-    for pn in (1, 2):
-        ft = rng.choice(['fat12', 'fat16', 'fat32'])
-        g = fatimg.Geometry(ft, 60, spc=1, bps=512, nfats=2, root_entries=64, type_string=True)
-        b = fatimg.Builder(g, rng, fragment=rng.random() < 0.5)
-        used = set()
-        def add(parent, name, data=None, is_dir=False):
-            return b.add(parent, name, fatimg.alias_for(name, used), data=data, is_dir=is_dir)
-        add(b.tree, 'config.txt', f'config of {tag} partition {pn}\n'.encode() * 3)
-        add(b.tree, 'cmdline.txt', f'console=serial0 root=/dev/{tag}p{pn}'.encode())
-        add(b.tree, f'marker-{tag}-{pn}.bin', hashlib.sha256(f'{tag}{pn}'.encode()).digest() * 20)
-        ov = add(b.tree, 'overlays', is_dir=True)
-        add(ov, 'README', f'overlays of {tag}/{pn}'.encode())
-        add(ov, 'a long overlay name.dtbo', bytes(rng.getrandbits(8) for _ in range(700)))
-        deep = add(ov, 'deep', is_dir=True)
-        add(deep, 'x.dat', f'deep file {tag}{pn}'.encode())
-        add(b.tree, 'EMPTY', b'')
-        vols.append(bytes(b.img))
+def make_volume(rng, tag, pn):
+    ft = rng.choice(['fat12', 'fat16', 'fat32'])
+    g = fatimg.Geometry(ft, 60, spc=1, bps=512, nfats=2, root_entries=64, type_string=True)
+    b = fatimg.Builder(g, rng, fragment=rng.random() < 0.5)
+    used = set()
+    def add(parent, name, data=None, is_dir=False):
+        return b.add(parent, name, fatimg.alias_for(name, used), data=data, is_dir=is_dir)
+    add(b.tree, 'config.txt', f'config of {tag} partition {pn}\n'.encode() * 3)
+    add(b.tree, 'cmdline.txt', f'console=serial0 root=/dev/{tag}p{pn}'.encode())
+    add(b.tree, f'marker-{tag}-{pn}.bin', hashlib.sha256(f'{tag}{pn}'.encode()).digest() * 20)
+    ov = add(b.tree, 'overlays', is_dir=True)
+    add(ov, 'README', f'overlays of {tag}/{pn}'.encode())
+    add(ov, 'a long overlay name.dtbo', bytes(rng.getrandbits(8) for _ in range(700)))
+    deep = add(ov, 'deep', is_dir=True)
+    add(deep, 'x.dat', f'deep file {tag}{pn}'.encode())
+    add(b.tree, 'EMPTY', b'')
+    return bytes(b.img)
+
+
+def mbr_entry(ptype, first, size):
+    return struct.pack('<B3sB3sII', 0, b'\0\0\0', ptype, b'\0\0\0', first, size)
+
+
+def make_disk(rng, tmp, tag, layout='mbr-primary'):
+    """A disk with four FAT volumes in the given partition-table layout; two of them are the ones boards refer to.
+    Returns (path, [bytes of those two volumes], [their partition numbers])."""
+    import zlib
+    vols = [make_volume(rng, tag, k + 1) for k in range(4)]
+    L = max(len(v) for v in vols) // 512 + rng.choice([0, 3])       # equal-sized slots
     lead = 8
-    disk = bytearray(512 * lead) + vols[0] + vols[1]
-    disk[446:462] = struct.pack('<B3sB3sII', 0, b'\0\0\0', 0x0c, b'\0\0\0', lead, len(vols[0]) // 512)
-    disk[462:478] = struct.pack('<B3sB3sII', 0, b'\0\0\0', 0x0e, b'\0\0\0', lead + len(vols[0]) // 512, len(vols[1]) // 512)
-    disk[510:512] = b'\x55\xaa'
+    if layout == 'mbr-primary':
+        slots = sorted(rng.sample([1, 2, 3, 4], 4))
+        disk = bytearray(512 * (lead + 4 * L))
+        for k, v in enumerate(vols):
+            first = lead + k * L
+            disk[512 * first:512 * first + len(v)] = v
+            disk[446 + 16 * k:462 + 16 * k] = mbr_entry(rng.choice([0x0c, 0x0e, 0x06]), first, L)
+        disk[510:512] = b'\x55\xaa'
+        numbers = [1, 2, 3, 4]
+    elif layout == 'mbr-logical':
+        # one primary (a copy of volume 0 as a decoy), one extended partition with four logical volumes, each behind its EBR
+        ext = lead + L
+        disk = bytearray(512 * (ext + 4 * (L + 1)))
+        disk[512 * lead:512 * lead + len(vols[0])] = vols[0]
+        disk[446:462] = mbr_entry(0x0c, lead, L)
+        disk[462:478] = mbr_entry(rng.choice([0x05, 0x0f]), ext, 4 * (L + 1))
+        disk[510:512] = b'\x55\xaa'
+        for k, v in enumerate(vols):
+            ebr = ext + k * (L + 1)
+            disk[512 * (ebr + 1):512 * (ebr + 1) + len(v)] = v
+            disk[512 * ebr + 446:512 * ebr + 462] = mbr_entry(0x0c, 1, L)
+            if k < 3:
+                disk[512 * ebr + 462:512 * ebr + 478] = mbr_entry(0x05, (k + 1) * (L + 1), L + 1)
+            disk[512 * ebr + 510:512 * ebr + 512] = b'\x55\xaa'
+        numbers = [5, 6, 7, 8]
+    else:
+        esize = rng.choice([128, 128, 256])
+        nent = 128
+        tsec = nent * esize // 512
+        numbers = sorted(rng.sample(range(1, 20), 4))
+        first0 = 2 + tsec + 6
+        total = first0 + 4 * L + 40
+        disk = bytearray(512 * total)
+        disk[446:462] = mbr_entry(0xee, 1, total - 1)
+        disk[510:512] = b'\x55\xaa'
+        table = bytearray(nent * esize)
+        for k, (n, v) in enumerate(zip(numbers, vols)):
+            first = first0 + k * L
+            disk[512 * first:512 * first + len(v)] = v
+            table[(n - 1) * esize:(n - 1) * esize + 128] = struct.pack(
+                '<16s16sQQQ72s', bytes.fromhex('28732ac11ff8d211ba4b00a0c93ec93b'), hashlib.md5(f'{tag}{n}'.encode()).digest(),
+                first, first + L - 1, 0, f'vol {k}'.encode('utf-16-le'))
+        disk[1024:1024 + len(table)] = table
+        def header(crc):
+            return struct.pack('<8sIII4xQQQQ16sQIII', b'EFI PART', 0x10000, 92, crc, 1, total - 1, first0, total - 34,
+                               hashlib.md5(tag.encode()).digest(), 2, nent, esize, zlib.crc32(bytes(table)))
+        disk[512:512 + 92] = header(zlib.crc32(header(0)))
+    pick = sorted(rng.sample(range(4), 2))
     path = os.path.join(tmp, f'{tag}.img')
     with open(path, 'wb') as f:
         f.write(disk)
-    return path, vols
+    return path, [vols[i] for i in pick], [numbers[i] for i in pick]
 
 
 def spec_lookup(tree, parts):
@@ -162,29 +215,34 @@ def model_correspondence(ctx, RB, rng, boards, where, names):
                 return
 
 
+LAYOUTS = [('mbr-logical', 'gpt'), ('mbr-primary', 'mbr-logical'), ('gpt', 'mbr-primary')]
+
+
 def run(ctx, build):
     from nobodd.server import BootHandler
     from nobodd.config import Board
     R = ctx.runner('Fat')
     RB = ctx.try_runner('Boot')
     rng = ctx.rng
-    tables = 3 if ctx.thorough else 1
+    tables = 6 if ctx.thorough else 3
     if ctx.widen:
         tables += 1
     for tb in range(tables):
         with tempfile.TemporaryDirectory() as tmp:
-            pa, va = make_disk(rng, tmp, 'A')
-            pb, vb = make_disk(rng, tmp, 'B')
+            la, lb = LAYOUTS[tb % len(LAYOUTS)]
+            pa, va, na = make_disk(rng, tmp, 'A', la)
+            pb, vb, nb = make_disk(rng, tmp, 'B', lb)
+            ctx.stat(f'layout-{la}'); ctx.stat(f'layout-{lb}')
             secret = os.path.join(tmp, 'host-secret.txt')
             open(secret, 'w').write('HOST SECRET')
             specs = {('A', 1): fatspec.spec_abs(R, va[0])[1], ('A', 2): fatspec.spec_abs(R, va[1])[1],
                      ('B', 1): fatspec.spec_abs(R, vb[0])[1], ('B', 2): fatspec.spec_abs(R, vb[1])[1]}
             s1, s2, s3, s4 = 0x1234abcd, 0xabc, 0x99887766, 0x10
             boards = {
-                s1: Board(s1, Path(pa), 1, None),
-                s2: Board(s2, Path(pa), 2, ipaddress.ip_address('10.0.0.5')),
-                s3: Board(s3, Path(pb), 1, ipaddress.ip_address('fd00::5')),
-                s4: Board(s4, Path(pb), 2, None),
+                s1: Board(s1, Path(pa), na[0], None),
+                s2: Board(s2, Path(pa), na[1], ipaddress.ip_address('10.0.0.5')),
+                s3: Board(s3, Path(pb), nb[0], ipaddress.ip_address('fd00::5')),
+                s4: Board(s4, Path(pb), nb[1], None),
             }
             where = {s1: ('A', 1), s2: ('A', 2), s3: ('B', 1), s4: ('B', 2)}
             all_content = {}
@@ -201,7 +259,7 @@ def run(ctx, build):
             before = {p: hashlib.sha256(open(p, 'rb').read()).hexdigest() for p in (pa, pb)}
             names = gen_names(rng, list(boards))
             if not ctx.thorough:
-                names = names[:1200]
+                names = names[:600]
             model_correspondence(ctx, RB, rng, boards, where, names[:300] if not ctx.thorough else names)
             try:
                 for i, name in enumerate(names):
